@@ -29,12 +29,36 @@ def r1_plumbing(run):
              "per-response requirement attribute")
     m = run.model
     base = m.func("client_base.Base.__init__")
-    dicts = [n for n in walk_no_nested(base.node)
-             if isinstance(n, ast.Assign) and isinstance(n.value, ast.Dict) and
-             any(isinstance(t, ast.Name) and t.id == "attribute_defaults"
-                 for t in n.targets)]
-    run.require(len(dicts) == 1, "Base.__init__: attribute_defaults dict vanished")
-    d = dicts[0].value
+    # the defaults table: the dict display whose items() the option loop
+    # walks - written in the loop header or bound to a name first
+    def table_of(it):
+        if not (isinstance(it, ast.Call) and isinstance(it.func, ast.Attribute)
+                and it.func.attr == "items" and not it.args):
+            return None, None
+        x = it.func.value
+        if isinstance(x, ast.Dict):
+            return x, None
+        if isinstance(x, ast.Name):
+            ds = [n for n in walk_no_nested(base.node)
+                  if isinstance(n, ast.Assign) and isinstance(n.value, ast.Dict)
+                  and any(isinstance(t, ast.Name) and t.id == x.id
+                          for t in n.targets)]
+            if len(ds) == 1:
+                return ds[0].value, x.id
+        return None, None
+    loops = []
+    for n in walk_no_nested(base.node):
+        if isinstance(n, ast.For) and isinstance(n.target, ast.Tuple) and \
+                len(n.target.elts) == 2 and \
+                all(isinstance(e, ast.Name) for e in n.target.elts):
+            d, nm = table_of(n.iter)
+            if d is not None and set(OPTIONS) <= {
+                    k.value for k in d.keys if isinstance(k, ast.Constant)}:
+                loops.append((n, d, nm))
+    run.require(len(loops) == 1, "Base.__init__: loop over the items() of the "
+                "option defaults table vanished")
+    loop0, d, dtab = loops[0]
+    dicts = [d]
     defaults = {k.value: v for k, v in zip(d.keys, d.values)
                 if isinstance(k, ast.Constant)}
     for opt, (dflt, _attr) in OPTIONS.items():
@@ -44,7 +68,7 @@ def r1_plumbing(run):
                   "default is %r" % dflt,
                   "default of %s is %s, documented default is %r" %
                   (opt, unparse(v) if v is not None else "<missing>", dflt),
-                  base.loc(dicts[0]))
+                  base.loc(d))
     # the loop reads config.getattr(attr, "sp") and setattr(self, attr, val)
     cfg = cfg_of(base, m)
     org = Origins(cfg)
@@ -52,12 +76,7 @@ def r1_plumbing(run):
             if unparse(arg_of(c, 0)) == "self"]
     run.require(sets, "Base.__init__: setattr(self, attr, val) vanished")
     nd, c = sets[0]
-    loops = [n for n in walk_no_nested(base.node) if isinstance(n, ast.For) and
-             unparse(n.iter) == "attribute_defaults.items()" and
-             isinstance(n.target, ast.Tuple) and len(n.target.elts) == 2 and
-             all(isinstance(e, ast.Name) for e in n.target.elts)]
-    run.require(len(loops) == 1, "Base.__init__: loop over "
-                "attribute_defaults.items() vanished")
+    loops = [loop0]
     kname, dname = [e.id for e in loops[0].target.elts]
     in_loop = any(c is x for x in ast.walk(loops[0]))
     a1 = arg_of(c, 1)
@@ -87,16 +106,16 @@ def r1_plumbing(run):
     # the defaults table is used as written: nothing changes an entry between
     # its definition and the loop (a default that depends on another option
     # makes one option override another)
-    dtab = unparse(loops[0].iter.func.value) if isinstance(
-        loops[0].iter, ast.Call) else "attribute_defaults"
     muts = []
     for n2 in walk_no_nested(base.node):
         if isinstance(n2, (ast.Assign, ast.AugAssign, ast.Delete)):
             tg = n2.targets if not isinstance(n2, ast.AugAssign) else [n2.target]
             for t in tg:
-                if isinstance(t, ast.Subscript) and unparse(t.value) == dtab:
+                if dtab and isinstance(t, ast.Subscript) and \
+                        unparse(t.value) == dtab:
                     muts.append(n2)
-        if isinstance(n2, ast.Call) and isinstance(n2.func, ast.Attribute) and \
+        if dtab and isinstance(n2, ast.Call) and \
+                isinstance(n2.func, ast.Attribute) and \
                 unparse(n2.func.value) == dtab and \
                 n2.func.attr in ("update", "pop", "setdefault", "clear",
                                  "popitem", "__setitem__"):
